@@ -1,5 +1,5 @@
 import SeqVerif.Base.Search
-import SeqVerif.Spec.Store
+import SeqVerif.Spec.StoreLemmas
 /-!
 # frac/processor/search.go: getLIDsBorders  (C02)
 
@@ -9,28 +9,6 @@ sorted descending by (mid, rid); equal IDs may repeat (nested documents, re-deli
 -/
 namespace SV.Borders
 open SV SV.Spec
-
-/-! ## the (mid, rid) order -/
-
-theorem ID.le_refl (a : ID) : ID.le a a = true := by simp [ID.le]
-
-theorem ID.le_trans {a b c : ID} (h1 : ID.le a b = true) (h2 : ID.le b c = true) : ID.le a c = true := by
-  unfold ID.le at *
-  split at h1 <;> split at h2 <;> split <;> simp_all <;> omega
-
-theorem ID.le_total (a b : ID) : ID.le a b = true ∨ ID.le b a = true := by
-  unfold ID.le
-  split <;> split <;> simp_all <;> omega
-
-theorem ID.le_antisymm {a b : ID} (h1 : ID.le a b = true) (h2 : ID.le b a = true) : a = b := by
-  unfold ID.le at *
-  cases a; cases b
-  split at h1 <;> split at h2 <;> simp_all <;> omega
-
-/-- comparing with `(m, MaxUint64)` is comparing the mid -/
-theorem ID.le_maxRid (a : ID) (m R : Nat) (h : a.rid ≤ R) : ID.le a ⟨m, R⟩ = decide (a.mid ≤ m) := by
-  unfold ID.le
-  split <;> simp_all <;> omega
 
 /-! ## the table and the interface functions -/
 
